@@ -18,6 +18,7 @@
 //! - **Fragmentation control**: Size classes minimize fragmentation
 
 use crate::error::{Result, ZiporaError};
+use crate::memory::tagged_head::TaggedHead;
 use std::alloc::{Layout, alloc, dealloc};
 use std::cell::UnsafeCell;
 use std::ptr::NonNull;
@@ -151,8 +152,8 @@ impl FixedCapacityPoolStats {
 /// Free list head for a size class
 #[derive(Debug)]
 struct FreeListHead {
-    /// Head of free list (as offset)
-    head: AtomicU32,
+    /// Head of free list (as offset, with a generation tag for ABA protection)
+    head: TaggedHead,
     /// Count of free blocks in this size class
     count: AtomicU32,
 }
@@ -160,7 +161,7 @@ struct FreeListHead {
 impl FreeListHead {
     fn new() -> Self {
         Self {
-            head: AtomicU32::new(LIST_TAIL),
+            head: TaggedHead::new(LIST_TAIL),
             count: AtomicU32::new(0),
         }
     }
@@ -507,7 +508,7 @@ impl FixedCapacityMemoryPool {
 
         // Try to pop from free list
         loop {
-            let current_head = free_list.head.load(Ordering::Acquire);
+            let (current_head, snapshot) = free_list.head.load_tagged(Ordering::Acquire);
             
             if current_head == LIST_TAIL {
                 // Try to split from larger size class
@@ -529,7 +530,7 @@ impl FixedCapacityMemoryPool {
 
             // Try to update head atomically
             if free_list.head.compare_exchange_weak(
-                current_head,
+                snapshot,
                 next_offset,
                 Ordering::Release,
                 Ordering::Relaxed,
@@ -582,11 +583,11 @@ impl FixedCapacityMemoryPool {
 
         // Add to free list
         loop {
-            let current_head = free_list.head.load(Ordering::Acquire);
+            let (current_head, snapshot) = free_list.head.load_tagged(Ordering::Acquire);
             header.next = current_head;
 
             if free_list.head.compare_exchange_weak(
-                current_head,
+                snapshot,
                 offset,
                 Ordering::Release,
                 Ordering::Relaxed,
